@@ -188,7 +188,8 @@ CHECKS = {
                 "HydroNode-constructing API function (a finite-domain trait solver built from the crate's own impl table) must satisfy: aggregations over unordered/duplicated inputs carry "
                 "proofs, public casts without a NonDet guard strengthen nothing (order, retries, boundedness), public builders of Batch/ObserveNonDet/MergeOrdered take a NonDet guard. "
                 "(2) emit_core (MIR guard analysis): 'static state lifetimes only on the true edge of is_top_level(), 'tick never on it. (3) fold_no_replay/reduce_no_replay selected under "
-                "is_top_level() && is_bounded(), join's multiset_delta() under is_top_level(). Determinism of the composed program over tick partitions is NOT decided. One genuine defect "
+                "is_top_level() && is_bounded(), join's multiset_delta() under is_top_level(). (4) In the watermarked keyed reduce the arrival guard and the retain predicate are complementary comparisons, so the fate of a key "
+                "does not depend on whether it or the watermark arrives first. Determinism of the composed program over tick partitions is NOT decided. One genuine defect "
                 "found by rule (1) (weaken_boundedness accepted Unbounded -> Bounded) was repaired by a fix: commit.",
         "note": "Node typing rules are stated from the documented semantics of the IR nodes; library-internal fabricated guards are reviewed under C32.",
         "technique": "finite-domain evaluation of the type-level API (impl-table trait solver over marker types) + branch-guard dominance analysis on rustc MIR",
@@ -198,7 +199,9 @@ CHECKS = {
                 "IsBounded, MinOrder, MinRetries, WeakerOrderingThan, WeakerRetryThan, Boundedness::PreserveOrderIfBounded) are evaluated from impl headers/associated types and compared with "
                 "their documented meaning; for each of the ~180 (function, HydroNode variant) construction sites of hydro_lang::live_collections every admitted ground instantiation (~1600) "
                 "satisfies the node's typing rule (element-wise nodes create neither order nor exactly-once; Enumerate/Scan need TotalOrder+ExactlyOnce; future resolution yields NoOrder; "
-                "Chain/Join/JoinHalf meet rules incl. the `B2::BOUNDED` const-dependent branch). Run-time emission order of DFIR operators and per-key independence are NOT decided.",
+                "Chain/Join/JoinHalf meet rules incl. the `B2::BOUNDED` const-dependent branch). For the keyed generator (basis of keyed scan/enumerate/limit/first) the staged closure never shrinks its "
+                "per-key state map and its two terminating answers leave the same tombstone (MIR of the q! closure). Run-time emission order of DFIR operators is NOT decided; per-key "
+                "independence only through that clause.",
         "note": "Keyed joins are only constrained on retries (their per-key order argument is semantic).",
         "technique": "finite-domain evaluation of the type-level API (impl-table trait solver, associated-type normalisation, const-dependent path pruning on MIR)",
     },
@@ -223,8 +226,8 @@ CHECKS = {
         "text": "Partial, static: bound-kind tables and bound typing. The associated-type tables of KeyedSingletonBound/SingletonBound (EraseMonotonic, KeyedStreamTo(Non)Monotone, WithBoundedValue, "
                 "ValueBound, UnderlyingBound, StreamToMonotone, IsKeyedMonotonic) and the ApplyMonotoneStream/ApplyMonotoneKeyedStream/ApplyOrderPreservingSingleton impls are evaluated and "
                 "compared with the promise sets the kinds document; for every HydroNode-constructing API function every admitted instantiation's output bound promises nothing its input and "
-                "proofs do not justify (element-wise nodes add no promise; folds promise monotone values only with a monotonicity proof or bounded input). That emitted values obey the "
-                "annotation is NOT decided.",
+                "proofs do not justify (element-wise nodes add no promise; folds promise monotone values only with a monotonicity proof or bounded input; Map/Filter/FilterMap/FlatMap over a still-changing singleton or keyed singleton value promise "
+                "monotone values only with an order-preservation proof and, for filters, never promise that keys only grow). That emitted values obey the annotation is NOT decided.",
         "note": "Promise sets: Unbounded {} < MonotonicKeys {keys grow} < MonotonicValue {+values monotone} < BoundedValue {+value immutable} < Bounded {+finite}.",
         "technique": "decision-table extraction from impl facts + finite-domain evaluation of the type-level API",
     },
@@ -241,8 +244,8 @@ CHECKS = {
         "text": "Partial, static (state-lifetime handling, the clause \"'tick state is reset, 'static state is kept\"): every one of the ~29 operators whose table entry admits a persistence "
                 "argument is classified from its generator source (syn): direct — its write_fn matches on Persistence and on the Tick arm emits end-of-tick code that re-initialises (assign / clear / "
                 "drain) a state identifier declared by its prologue template, and emits none on the Static / wildcard arm; delegate — it takes its whole OperatorWriteOutput from another operator and "
-                "does not drop write_tick_end; restricted — it rejects all but one persistence with an error diagnostic. Unclassifiable operators are reported. The values operators compute are NOT "
-                "decided (needs a reference interpreter).",
+                "does not drop write_tick_end; restricted — it rejects all but one persistence with an error diagnostic. Unclassifiable operators are reported; a direct operator that emits different code per placement must reset under both (pull and push). The values "
+                "operators compute are NOT decided (needs a reference interpreter).",
         "note": "Thorough tier adds translation validation on the corpus (/verif/corpus, compiled with this tree's dfir_lang, never run): paired 'tick / 'static programs (fold, unique, join) must differ exactly by an end-of-tick state write before __end_tick().",
         "technique": "generator-template analysis (syn token trees: match arms over Persistence, reset forms, prologue slots) + operator table",
     },
